@@ -11,6 +11,11 @@ CLAIMED = {
     technique='ast typestate invariant over all sub-tape handlers (return-flag scoping), alias/copy classification of EVAL sub-tape fields, cross-table agreement query (VM table vs docs.md vs language_spec.md vs compiler/decompiler case labels)',
     text='Decides the clauses of C06 whose truth is in the shape of the code: RETURN scoping as an inductive invariant over every handler that runs a sub-tape (IF/IF_ELSE/TRY_EXCEPT transparent, CALL consumes, EVAL consumes unless eval_return, nothing may raise while the flag is pending), EVAL isolation (definitions and flags are copies), and agreement of the five opcode tables. Per-op operand orders, numeric results and boundary behaviour quantify over runtime values and are not decided.',
     note='Trusted: CPython ast, tsa analyser. Assumes handlers are reached only via run_tape dispatch or the handler->handler calls in the call graph.'),
+ 'C07': dict(
+    level='other', ref='DESIGN.md 4 C07',
+    technique='ast who-may-call / guard-exactness / taint analysis: storage-access inventory, dominator + linear-atom truth tables for the limit guards, read-size kind classification, call-graph cycles through run_tape with depth-guard dominance, loop-variant recognition, value-taint from script-chosen integers to allocation sinks',
+    text='Decides necessary structural conditions of C07 on every run: all stack growth goes through the checked put and its three guards are exact (so the maxlen deque can never silently drop an item), Tape bounds are exact, no read size can be negative, tape.pointer is written only by its owners, recursion through run_tape is depth-accounted (four known findings), every loop has a recognised termination variant, and no script-chosen integer reaches an allocation sink unbounded. Memory of big-integer arithmetic and non-limit Python exceptions are not decided.',
+    note='Trusted: CPython ast, tsa analyser, deque/bytes semantics. Known findings (uncounted nesting of IF/IF_ELSE/TRY_EXCEPT/LOOP) listed in known_findings.json.'),
  'C08': dict(
     level='proof', ref='DESIGN.md 4 C08',
     technique='ast who-may-write analysis: interprocedural fixpoint of cache holders, key-kind classification of every dict mutation site, in-place-mutation and escape rules',
